@@ -758,15 +758,31 @@ Qed.
    swallowed by the bar's own limiter (its `prev` is 0, the next token matures at 1 ms): no frame
    although the target's bucket is full.  (The audit's counterexample, docs/AUDIT3.md finding 25.) *)
 Theorem late_frame_age_refuted :
-  exists pre ops,
-    nondec 0 (map op_time pre) /\ (forall t, In t (map op_time pre) -> t <= 500000) /\
-    ops_valid 1 pre /\ ops_valid 1 ops /\ ops <> [] /\ nondec 500000 (map op_time ops) /\
-    last_paint None (map op_time (pre ++ ops))
-      (late_run (false, Some 1, 500000, [(0, 100)]) pre ops) = None.
+  let pre := map (fun _ : nat => (400000, 0, OInc 1)) (seq 0 10) in
+  let ops := [(500000, 0, OInc 1); (900000, 0, OInc 1)] in
+  (* every hypothesis of the _partial theorem for R = 1, tb = 0, t0 = 500000 ... *)
+  1 <= 1 <= 255 /\ 0 <= 500000 /\
+  nondec 0 (map op_time pre) /\ (forall t, In t (map op_time pre) -> t <= 500000) /\
+  ops_valid 1 pre /\ ops_valid 1 ops /\ ops <> [] /\ nondec 500000 (map op_time ops) /\
+  (forall t, In t (map op_time (pre ++ ops)) -> t < 0 + U64) /\
+  (* ... except the last one: the last call comes less than 1 ms after the attach ... *)
+  last (map op_time ops) 0 < 500000 + 1000000 /\
+  (* ... and no frame has been painted *)
+  last_paint None (map op_time (pre ++ ops))
+    (late_run (false, Some 1, 500000, [(0, 100)]) pre ops) = None.
 Proof.
-  exists (map (fun _ => (400000, 0, OInc 1)) (seq 0 10)), [(500000, 0, OInc 1); (900000, 0, OInc 1)].
-  splits; try (vm_compute; repeat split; discriminate).
-  - intros t Ht. vm_compute in Ht. repeat (destruct Ht as [<- | Ht]; [vm_compute; discriminate|]). destruct Ht.
-  - unfold ops_valid. vm_compute. repeat constructor.
-  - unfold ops_valid. vm_compute. repeat constructor.
+  cbv zeta.
+  split; [lia|]. split; [lia|].
+  split; [vm_compute; repeat split; discriminate|].
+  split.
+  { intros t Ht. vm_compute in Ht. repeat (destruct Ht as [<- | Ht]; [lia|]). destruct Ht. }
+  split; [unfold ops_valid; vm_compute; repeat constructor|].
+  split; [unfold ops_valid; vm_compute; repeat constructor|].
+  split; [discriminate|].
+  split; [vm_compute; repeat split; discriminate|].
+  split.
+  { intros t Ht. vm_compute in Ht. rewrite U64v.
+    repeat (destruct Ht as [<- | Ht]; [lia|]). destruct Ht. }
+  split; [vm_compute; reflexivity|].
+  vm_compute. reflexivity.
 Qed.
